@@ -30,6 +30,7 @@ DECIDED = [
     "R-C03-SHUTDOWN / R-C03-FINISH (round 6): no asyncio.shield where stopping relies on cancellation; finish() returns only what the consumer still holds (C14 reused); RabbitMQ finish(): stop accepting, cancel the subscription, drain and reject known tags",
     "R-C03-AWAITED: in the files this property is anchored in, no bare statement calls a coroutine function (the operation would never run)",
     "R-C03-HANDOFF / R-C03-MAINT (Redis sweep rules): claim flow, lifecycle and defaults-only-when-missing of the Redis package under this property",
+    "R-C03-SHUTDOWN (sweep stage two): Worker registers its stop handler for every configured signal (loop over handle_signals, no break / return), before consuming starts",
 ]
 NOT_DECIDED = ["the timing bound of run() (graceful period + slack)", "interleavings of the runner's own tasks (rejects still in flight when run() returns)", "process-death semantics of the servers"]
 ASSUMPTIONS = ["asyncio: awaits are the only cancellation points", "a cancelled awaiter cancels the awaited child task"]
@@ -39,6 +40,9 @@ def run(ctx: Ctx) -> None:
     from .shared import every_operation_awaited
 
     every_operation_awaited(ctx, "R-C03-AWAITED")  # in the files this property is anchored in, no asynchronous operation is created and dropped
+    from .shared import signals_registered
+
+    signals_registered(ctx, "R-C03-SHUTDOWN")
     from .brokers import redis_lifecycle
 
     redis_lifecycle(ctx, "R-C03-HANDOFF")  # Redis consumer: poll task, pause lock protocol, gate, hand-over
